@@ -11,6 +11,9 @@ def _kf1_vc(case, msg):
 
 
 def run(ctx):
+    from contracts import wrap_vc
+
+    api.run_vcs(ctx, wrap_vc.wrapper_vcs("C10.P.module_forwards_parameters", ['SliceSpectData', 'ChunkTokenSequencesBySlices']), {"C10.P.module_forwards_parameters": wrap_vc.TEXT % "SliceSpectData, ChunkTokenSequencesBySlices"})
     from vf.pyvc import crosscheck_sym
 
     crosscheck_sym.guard(ctx)  # the symbolic-shape tensor layer against real torch, before the clauses that rest on it
